@@ -303,6 +303,21 @@ type modSet struct {
 	keys  map[string]bool
 	pats  []string
 	iscopy bool
+	keep  []string
+	keepSet bool
+	heapNoKeep bool
+}
+
+func intersect(a, b []string) []string {
+	var out []string
+	for _, x := range a {
+		for _, y := range b {
+			if x == y {
+				out = append(out, x)
+			}
+		}
+	}
+	return out
 }
 
 // callMods adds what a call inside a loop may modify (mirrors callEffect).
@@ -328,6 +343,7 @@ func (vc *VC) callMods(ins ssa.CallInstruction, ms *modSet) {
 			}
 		case "clear":
 			ms.heap = true
+			ms.heapNoKeep = true
 		}
 		return
 	}
@@ -345,6 +361,11 @@ func (vc *VC) callMods(ins ssa.CallInstruction, ms *modSet) {
 	}
 	if _, isDefer := ins.(*ssa.Defer); isDefer {
 		return
+	}
+	if fcu := vc.C.Funcs[name]; fcu != nil {
+		for _, u := range fcu.Updates {
+			ms.keys["G:"+u.Ghost.Name] = true
+		}
 	}
 	if _, isGo := ins.(*ssa.Go); isGo {
 		ms.all = true
@@ -379,19 +400,30 @@ func (vc *VC) callMods(ins ssa.CallInstruction, ms *modSet) {
 				ms.all = true
 			case "heap":
 				ms.heap = true
+				if ms.keepSet {
+					ms.keep = intersect(ms.keep, fc.Preserves)
+				} else {
+					ms.keep, ms.keepSet = fc.Preserves, true
+				}
 			default:
-				ms.pats = append(ms.pats, m)
+				if k, ok := vc.objModKeyStatic(m, fn, c.Signature()); ok {
+					ms.keys[k] = true
+				} else {
+					ms.pats = append(ms.pats, m)
+				}
 			}
 		}
 		ghostOf(fc)
 	case fc != nil:
 		ms.heap = true
+		ms.heapNoKeep = true
 		ghostOf(fc)
 		if !fc.External && !fc.Trusted {
 			ms.all = true
 		}
 	default:
 		ms.heap = true
+		ms.heapNoKeep = true
 		pk := ""
 		if fn != nil {
 			pk = FuncPkgPath(fn)
@@ -546,6 +578,9 @@ func (vc *VC) loopHeader(li *loopInfo) {
 	}
 	if ms.heap {
 		hs.havocHeap = true
+		if !ms.heapNoKeep && !ms.all {
+			hs.keepPats = ms.keep
+		}
 	}
 	if ms.ghost {
 		hs.havocGhst = true
@@ -660,4 +695,55 @@ func (vc *VC) backEdgeCheck(from *ssa.BasicBlock, li *loopInfo) {
 		o.Reach = edge
 	}
 	_ = saveReach
+}
+
+// objModKeyStatic: the component of an object-level modifies entry ("p.Field"), resolved from the callee's
+// parameter types only (used for loop havoc sets, where the whole component is havoced).
+func (vc *VC) objModKeyStatic(m string, fn *ssa.Function, sig *types.Signature) (string, bool) {
+	if !strings.Contains(m, ".") || strings.Contains(m, "/") || strings.HasSuffix(m, "*") {
+		return "", false
+	}
+	parts := strings.Split(m, ".")
+	var t types.Type
+	if fn != nil {
+		for _, p := range fn.Params {
+			if p.Name() == parts[0] {
+				t = p.Type()
+			}
+		}
+	}
+	if t == nil && sig != nil {
+		if r := sig.Recv(); r != nil && r.Name() == parts[0] {
+			t = r.Type()
+		}
+		for i := 0; i < sig.Params().Len(); i++ {
+			if sig.Params().At(i).Name() == parts[0] {
+				t = sig.Params().At(i).Type()
+			}
+		}
+	}
+	if t == nil {
+		return "", false
+	}
+	for i, name := range parts[1:] {
+		st := deref(t)
+		s, ok := structOf(st)
+		if !ok {
+			return "", false
+		}
+		found := false
+		for j := 0; j < s.NumFields(); j++ {
+			if s.Field(j).Name() == name {
+				found = true
+				if i == len(parts)-2 {
+					return vc.fieldKey(st, j), true
+				}
+				t = s.Field(j).Type()
+			}
+		}
+		if !found {
+			return "", false
+		}
+	}
+	return "", false
 }
